@@ -190,9 +190,9 @@ def _edit_in_place(structure, delta):
             attrs[:] = [int(v) + delta for v in attrs] if isinstance(attrs, list) else attrs + delta
 
 
-def call_generate(cc, case, np_seed, seed=None, kind='C19/domain'):
+def call_generate(cc, case, np_seed, seed=None, kind='C19/domain', structure_obj=None):
     shift = int(case.get('prior_shift') or 0)
-    structure = materialize_structure(case)
+    structure = materialize_structure(case) if structure_obj is None else structure_obj
     if shift:
         np.random.seed((np_seed + 17) % 2**32)
         prior_structure = structure if case.get('same_structure_object') and structure is not None else materialize_structure(case)
@@ -309,8 +309,12 @@ def oracle_ensure_rep(case, rec, known_eq=False):
 
 def oracle_replay(case, rec):
     cc, cc2 = CC(), CC()
-    A = call_generate(cc, case, case['np_seed'], kind='C19/replay')
-    B = call_generate(cc2 if case['fresh_instance'] else cc, case, case['np_seed2'], kind='C19/replay')
+    # one structure object for both generations in half of the cases (a caller keeps its structure description around)
+    shared = materialize_structure(case) if case.get('alt_seed', 0) % 2 else None
+    if shared is not None:
+        rec.cls('same-structure-object-for-both-generations')
+    A = call_generate(cc, case, case['np_seed'], kind='C19/replay', structure_obj=shared)
+    B = call_generate(cc2 if case['fresh_instance'] else cc, case, case['np_seed2'], kind='C19/replay', structure_obj=shared)
     C = call_generate(cc, case, case['np_seed'], seed=case['alt_seed'], kind='C19/replay')
     differs = A.shape == C.shape and not np.array_equal(A, C)
     rec.cls('seed-sensitive' if differs else 'seed-insensitive', 'fresh' if case['fresh_instance'] else 'same-instance')
